@@ -577,7 +577,7 @@ func (g *txnGen) writeStep(src string) string {
 		if g.r.Chance(30) {
 			return "T," + src + ","
 		}
-		return "T," + src + "," + Pick(g.r, g.methods)
+		return "T," + src + "," + genTruncMethods(g.r, g.methods)
 	}
 }
 
